@@ -170,6 +170,36 @@ def run(ctx):
                     "process(snake,trim,reserved)": utils.process_name(n, True, None, None, True, True)})
     run.exhaustive = True
     run.extra["k1_disagreements"] = k1_bad
+    # ---- K1 + oracle: enum member names (utils.enum_member_name) over the same exhaustive name set ----
+    import enum as _enum
+    gnames = [n for n in names if GQL.match(n) and not n.startswith("__")]
+    eres = model.batch("C18", [[Sym("enum_member"), n] for n in gnames])
+    e_bad = 0
+    for n, m in zip(gnames, eres):
+        run.count()
+        im = utils.enum_member_name(n)
+        problems = []
+        if not im.isidentifier() or keyword.iskeyword(im):
+            problems.append("member name is not a usable identifier")
+        if alnum(im) != alnum(n):
+            problems.append("letters/digits changed")
+        if im != n or n.startswith("_") or n.endswith("_") or n in ("mro", "name", "value"):
+            try:
+                E = _enum.Enum("E", {im: n})
+                if [x.value for x in E] != [n] or getattr(E, im).value != n:
+                    problems.append("the member does not carry the value")
+            except Exception as e:  # noqa: BLE001
+                problems.append(f"enum.Enum refuses the member: {type(e).__name__}: {str(e)[:80]}")
+        if im != m:
+            e_bad += 1
+            if e_bad <= 10 or problems:
+                run.violation(f"K1 enum_member_name disagrees on {n!r}: impl {im!r} model {m!r}"
+                              + (f"; property fails on this input: {', '.join(problems)}" if problems else ""),
+                              {"value": n, "impl": im, "model": m, "problems": problems}, found_input=bool(problems))
+        elif problems:
+            run.violation(f"enum_member_name({n!r}) = {im!r}: {', '.join(problems)}", {"value": n, "member": im, "problems": problems})
+    run.extra["enum_member_names"] = len(gnames)
+    run.extra["enum_member_k1_disagreements"] = e_bad
     # ---- K3: colliding names inside real generated scopes ----
     try:
         from . import c18_scopes
